@@ -126,6 +126,13 @@ CHECKS = {
         design_ref="DESIGN.md §4 C07",
         note="Imports, loop and with targets are not surface; 'still defined' = bound in any way in the corresponding scope (so `x = f()` turned into `with f() as x:` is accepted).",
     ),
+    "C08": dict(
+        technique="runtime post-condition + differential execution: (a) format_code(library, preserve=P) over all subsets P of a name universe, preserved names must stay bound (symtable); (b) client programs are executed in a subprocess against the library before and after the library is formatted through format_files / the CLI with the client as preserved file",
+        category="exploration",
+        text="Generated libraries (constants, helper / camelCase / unused / duplicate functions, a class with __init__, methods, a self-less method, a static method and a class attribute, a spare class; random naming styles and spacing) are formatted with every subset of a 6-name universe plus random subsets of all 13 names (~220 format_code calls per quick run); 56 (240) client scenarios use a random subset of the library by from-import, import-as, module attribute, instance attribute and aliases, with library and client in the same or in different folders, 1 or 5 module passes, safe on/off, API and the real CLI (`python -m pyrefact lib.py --preserve client.py`): the client's stdout must be unchanged and every name it depends on still defined.",
+        design_ref="DESIGN.md §4 C08",
+        note="A preserved member name must survive only when its class is preserved too (left open by the statement); clients run in subprocesses with the scenario root on PYTHONPATH.",
+    ),
 }
 
 NOT_YET = {}
